@@ -96,8 +96,10 @@ def classify(failure, op, ls, shadow):
 
 
 def run_history(rng, counters, digests, samples, violations, known, spec, layered, nops):
+    import os
     hg = gen.HistoryGen(rng, layered=layered, depth=rng.choice([2, 3, 3, 4]),
-                        profile="full" if layered else "safe")
+                        profile="full" if layered else "safe",
+                        weights={"ftask": 0.0, "knob": 0.0} if os.environ.get("VERIF_C01_NO_TASKS") else None)
     ls = lockstep.LockStep(hg.world)
     ran_tasks = 0
     for step in range(nops):
